@@ -718,7 +718,11 @@ func run(dir string, seed uint64, tier string) error {
 		"P:a\nF:d\nM:1:2:0700\nR:f\na:3:4:0600\nZ:Q1xx\n\n", "P:a\nF:d\nM:1:2\n\n", "P:a\nF:d\nM:x:2:3\n\n", "P:a\nF:d\nM:1:2:9\n\n", "P:a\nR:f\n\n", "P:a\nF:/abs\nR:../../etc/passwd\n\n",
 		"P:a\nF:d\nR:../x\n\n", "P:a\nC:Q1\n\n", "P:a\nC:Q1!!\n\n", "P:a\nC:Q\n\n", "P:a\nC:md5sum\n\n", "P:a\nS:-1\n\n", "P:a\nS:18446744073709551615\n\n", "P:a\nS:18446744073709551616\n\n",
 		"P:a\nt:-9223372036854775808\n\n", "P:a\nt:9223372036854775808\n\n", "P:a\nt:+5\n\n", "P:a\nt:\n\n", "P:a\nk:007\n\n", "P:a\r\nV:1\r\nT:x\r\r\n\r\n", "P:a\nD:\np:\nr:\ni:\n\n",
-		"P:a\nD: \n\n", "P:a\nD:a  b\n\n", "P:a\nr:x y\n\n", "\n\nP:a\n\n\n", "P:a\nP:b\n\n", "P:\nV:1\n\n"} {
+		"P:a\nD: \n\n", "P:a\nD:a  b\n\n", "P:a\nr:x y\n\n", "\n\nP:a\n\n\n", "P:a\nP:b\n\n", "P:\nV:1\n\n",
+		// sanitizeArchivePath after fix 566455e: containment is tested component-wise (filepath.Rel)
+		"P:a\nF:d\nR:../d2/x\n\n", "P:a\nF:\nR:x\n\n", "P:a\nF:.\nR:x\n\n", "P:a\nF:/\nR:x\n\n", "P:a\nF:/\nR:..\n\n", "P:a\nF:d\nR:.\n\n", "P:a\nF:d\nR:..\n\n",
+		"P:a\nF:d/e\nR:../x\n\n", "P:a\nF:..\nR:..\n\n", "P:a\nF:..\nR:x\n\n", "P:a\nF:../a\nR:../b\n\n", "P:a\nF:\nR:/x\n\n", "P:a\nF:\nR:\n\n", "P:a\nF:d//e/\nR:x//y\n\n",
+		"P:a\nF:/r\nR:../r2/x\n\n", "P:a\nF:d\nR:..x\n\n", "P:a\nF:d\nR:../d\n\n", "P:a\nF:d/..\nR:x\n\n", "P:a\nF:d/..\nR:../x\n\n"} {
 		readCase(w, t, "corpus", "hand-picked")
 	}
 	usersCase(w, []passwd.UserEntry{{UserName: "root", Password: "x", UID: 0, GID: 0, Info: "root", HomeDir: "/root", Shell: "/bin/sh"}}, "corpus")
